@@ -695,7 +695,23 @@ func c02R9(c *Ctx) {
 	var region []ast.Stmt
 	sink := ""
 	statusField := p.Field(clientPkg, "NetworkInterface", "Status")
+	niType := p.LookupObj(clientPkg, "NetworkInterface")
+	isNI := func(x ast.Expr) bool {
+		x = ast.Unparen(x)
+		if u, ok := x.(*ast.UnaryExpr); ok && u.Op == token.AND {
+			x = ast.Unparen(u.X)
+		}
+		cl, ok := x.(*ast.CompositeLit)
+		if !ok || niType == nil {
+			return false
+		}
+		n, _ := info.TypeOf(cl).(*types.Named)
+		return n != nil && n.Obj() == niType
+	}
+	// the record under construction: a NetworkInterface literal bound to a variable (its Status is the sink);
+	// failing that, the first store to the Status field
 	var walk func(k ast.Node, body []ast.Stmt)
+	fromLit := false
 	walk = func(k ast.Node, body []ast.Stmt) {
 		ast.Inspect(k, func(j ast.Node) bool {
 			switch t := j.(type) {
@@ -712,6 +728,9 @@ func c02R9(c *Ctx) {
 			case *ast.AssignStmt:
 				if len(t.Lhs) != 1 || len(t.Rhs) != 1 {
 					return true
+				}
+				if id, ok := t.Lhs[0].(*ast.Ident); ok && isNI(t.Rhs[0]) && !fromLit {
+					sink, region, fromLit = id.Name+".Status", body, true
 				}
 				if sel, ok := ast.Unparen(t.Lhs[0]).(*ast.SelectorExpr); ok && sink == "" && statusField != nil && fieldOf(info, sel) == statusField {
 					sink, region = exprString(sel), body
@@ -745,9 +764,30 @@ func c02R9(c *Ctx) {
 		ins = append(ins, k)
 	}
 	sort.Strings(ins)
-	ce := &constEval{info: info, maps: collectTables(info, fn.Pkg.Syntax)}
+	tables := collectTables(info, fn.Pkg.Syntax)
 	for _, in := range ins {
-		env, _ := ce.stmts(region, constEnv{sink: in})
+		in := in
+		ce := &constEval{info: info, maps: tables}
+		// what the cloud reported: a string field called Status of anything but the record under construction
+		ce.input = func(x ast.Expr) (string, bool) {
+			if sel, ok := ast.Unparen(x).(*ast.SelectorExpr); ok && sel.Sel.Name == "Status" {
+				if f := fieldOf(info, sel); f != nil && f != statusField {
+					return in, true
+				}
+			}
+			return "", false
+		}
+		ce.body = func(f *types.Func) (*ast.FuncDecl, *types.Info) {
+			if fi := p.FuncOf(f); fi != nil {
+				return fi.Decl, fi.Info()
+			}
+			return nil, nil
+		}
+		env0 := constEnv{}
+		if !fromLit {
+			env0[sink] = in
+		}
+		env, _ := ce.stmts(region, env0)
 		got := env[sink]
 		shown := got
 		if got == cvUnknown {
